@@ -4,15 +4,21 @@
 import json, os, shutil, subprocess, sys
 from concurrent.futures import ThreadPoolExecutor
 jobs = []
-for prop in sys.argv[1:]:
-    src = f'/tmp/seed/{prop}'
+for arg in sys.argv[1:]:
+    # <PROP> (first round, seeds s1/s2) or <PROP>b (second round from /tmp/seed/<PROP>b, stored as s3/s4)
+    src = f'/tmp/seed/{arg}'
+    prop, shift = (arg[:-1], 2) if arg.endswith('b') else (arg, 0)
     meta = json.load(open(f'{src}/SEED_meta.json'))
     for s in meta['seeds']:
-        n = s['n']
+        k = s['n']
+        n = k + shift
         d = f'/verif/seeded/{prop}-s{n}'
         os.makedirs(d, exist_ok=True)
-        shutil.copy(f'{src}/SEED{n}_patch.diff', f'{d}/patch.diff')
-        shutil.copy(f'{src}/zz_seed{n}_test.go', f'{d}/demo_test.go')
+        shutil.copy(f'{src}/SEED{k}_patch.diff', f'{d}/patch.diff')
+        demo = f'{src}/zz_seed{k}_test.go'
+        if not os.path.exists(demo):
+            demo = f'{src}/commit/zz_seed{k}_test.go'
+        shutil.copy(demo, f'{d}/demo_test.go')
         jobs.append((prop, n, d, s))
 def run(job):
     prop, n, d, s = job
